@@ -338,6 +338,7 @@ func TestC08(t *testing.T) {
 			}
 			tagKeys = append(tagKeys, tagKeyPool...)
 			var history []*c08Query
+			reuseFilters := 0
 			lt := uint64(1 + rng.Intn(3))
 			for qi := 0; qi < perBubble; qi++ {
 				sameTime := qi > 0 && rng.Intn(3) == 0 // another query with the Lamport time of the previous one (other origin / id)
@@ -428,7 +429,96 @@ func TestC08(t *testing.T) {
 						msgSeen = len(p.Received())
 					}
 				}
+				if qi > 1 && rng.Intn(5) == 0 {
+					// the node's tags change while it runs (seeded C08-i: filter verdicts remembered across a tag
+					// change). The origin puppet is a live memberlist peer that never gossips, so the update's
+					// broadcast times out and SetTags reports an error - the new tags are in force all the same
+					// (ground truth: what the node itself lists as its tags afterwards).
+					key := tagKeyPool[rng.Intn(len(tagKeyPool))]
+					var used []string
+					for _, h := range history {
+						for _, f := range h.M.Filters {
+							var ft wire.FilterTagT
+							if len(f) > 1 && f[0] == wire.FilterTag && wire.Decode(f[1:], &ft) == nil {
+								used = append(used, ft.Tag)
+							}
+						}
+					}
+					if len(used) > 0 && rng.Intn(4) != 0 {
+						key = used[rng.Intn(len(used))] // a tag that earlier filters looked at
+					}
+					nt := map[string]string{}
+					for k, v := range tags {
+						nt[k] = v
+					}
+					if _, ok := nt[key]; ok && rng.Intn(4) == 0 {
+						delete(nt, key)
+					} else {
+						for try := 0; try < 8; try++ {
+							if v := tagValPool[rng.Intn(len(tagValPool))]; v != nt[key] || try == 7 {
+								nt[key] = v
+								break
+							}
+						}
+					}
+					err := nd.S.SetTags(nt)
+					synctest.Wait()
+					now := nd.S.LocalMember().Tags
+					same := func(a, b map[string]string) bool {
+						if len(a) != len(b) {
+							return false
+						}
+						for k, v := range a {
+							if w, ok := b[k]; !ok || w != v {
+								return false
+							}
+						}
+						return true
+					}
+					counts["tag_changes"]++
+					if err != nil {
+						counts["tag_changes_reported_as_failed"]++
+					}
+					switch {
+					case same(now, nt):
+						tags = nt
+						counts["tag_changes_in_force"]++
+						reuseFilters = 3
+					case same(now, tags):
+						counts["tag_changes_not_applied"]++
+					default:
+						setupErr = fmt.Sprintf("after SetTags(%v) (error %v) the node lists tags %v", nt, err, now)
+						return
+					}
+					nd.DrainBroadcasts()
+					evSeen, msgSeen = len(nd.Events()), len(p.Received())
+				}
 				q := c08GenQuery(rng, node, tags, tagKeys, p, lt)
+				if reuseFilters > 0 {
+					// queries that repeat, byte for byte, the filters of queries seen before the tags changed
+					reuseFilters--
+					var cands []*c08Query
+					for _, h := range history {
+						for _, f := range h.M.Filters {
+							if len(f) > 0 && f[0] == wire.FilterTag {
+								cands = append(cands, h)
+								break
+							}
+						}
+					}
+					if len(cands) > 0 {
+						h := cands[rng.Intn(len(cands))]
+						q.M.Filters = h.M.Filters
+						q.Desc = append([]string{"repeated-after-tag-change"}, h.Desc...)
+						q.Class = h.Class
+						q.Raw = wire.Encode(wire.Query, &q.M)
+						q.Sel = c08Select(q.M.Filters, node, tags)
+						counts["queries_repeating_filters_after_a_tag_change"]++
+						if q.Sel != h.Sel {
+							counts["queries_repeating_filters_whose_verdict_changed"]++
+						}
+					}
+				}
 				if sameTime && (q.M.ID == history[len(history)-1].M.ID || bytes.Equal(q.Raw, history[len(history)-1].Raw)) {
 					sameTime = false // not a different query after all
 				}
